@@ -57,7 +57,7 @@ Variable m : mode.
 
 Lemma compiled_cases it : In it (compile_items a m) ->
   exists p w, In (p, w) (all_ws a) /\
-    (it = ws_item a m p w \/ (w_abstract w = false /\ it = desc_item (p_name p) w) \/
+    (it = ws_item a m p w \/ (w_abstract w = false /\ it = desc_item m (p_name p) w) \/
      exists i, In i (w_items w) /\ In it (stmt_items a m (p_name p) (p_name p, w_name w) i)).
 Proof.
   unfold compile_items. intros Hin. apply in_flat_map in Hin as ([p w] & Hpw & Hin). exists p, w. split; auto.
@@ -70,7 +70,7 @@ Qed.
 Lemma in_compiled_ws p w : In (p, w) (all_ws a) -> In (ws_item a m p w) (compile_items a m).
 Proof. intros H. eapply in_compile_ws; [apply in_all_ws; eauto | left; auto]. Qed.
 
-Lemma in_compiled_desc p w : In (p, w) (all_ws a) -> w_abstract w = false -> In (desc_item (p_name p) w) (compile_items a m).
+Lemma in_compiled_desc p w : In (p, w) (all_ws a) -> w_abstract w = false -> In (desc_item m (p_name p) w) (compile_items a m).
 Proof.
   intros H Ha. eapply in_compile_ws; [apply in_all_ws; eauto|]. unfold ws_items. right. apply in_app_iff. left.
   rewrite Ha. left; auto.
@@ -91,8 +91,9 @@ Qed.
 Lemma keys_mode : map item_key (compile_items a m) = map item_key (compile_items a Ideal).
 Proof.
   unfold compile_items. rewrite !map_flat_map'. apply flat_map_ext_in. intros [p w] _. cbn [fst snd].
-  unfold ws_items. cbn [map]. f_equal. rewrite !map_app. f_equal. rewrite !map_flat_map'.
-  apply flat_map_ext_in. intros i _. apply stmt_keys.
+  unfold ws_items. cbn [map]. f_equal. rewrite !map_app. f_equal.
+  - destruct (w_abstract w); reflexivity.
+  - rewrite !map_flat_map'. apply flat_map_ext_in. intros i _. apply stmt_keys.
 Qed.
 
 End Compiled.
@@ -243,7 +244,7 @@ Qed.
 (* to show a per-item clause: the workspace item, the descriptor, and the items of each statement *)
 Lemma forall_compiled (P : item -> bool) :
   (forall p w, In (p, w) (all_ws a) -> P (ws_item a m p w) = true) ->
-  (forall p w, In (p, w) (all_ws a) -> w_abstract w = false -> P (desc_item (p_name p) w) = true) ->
+  (forall p w, In (p, w) (all_ws a) -> w_abstract w = false -> P (desc_item m (p_name p) w) = true) ->
   (forall p w i it, In (p, w) (all_ws a) -> In i (w_items w) ->
                     In it (stmt_items a m (p_name p) (p_name p, w_name w) i) -> P it = true) ->
   forallb P d = true.
@@ -286,7 +287,7 @@ Proof.
   intros Hq. unfold find_item. destruct (find _ d) as [i|] eqn:Ef; auto. exfalso.
   apply find_some in Ef as [Hin E]. apply qname_eqb_eq in E.
   destruct (compiled_key_pkg i Hin) as (p & Hp & Ek). rewrite E, Hq in Ek.
-  pose proof Hwf as H. unfold wf in H. rewrite !andb_true_iff in H. destruct H as [[[[[[_ _] Hs] _] _] _] _].
+  pose proof Hwf as H. unfold wf in H. rewrite !andb_true_iff in H. destruct H as [[[[[_ _] Hs] _] _] _].
   apply negb_true_iff in Hs. assert (mem_s "sys" (map p_name a) = true); [|congruence].
   apply mem_s_In. rewrite Ek. apply in_map; auto.
 Qed.
@@ -431,7 +432,7 @@ Proof.
         destruct (lookup_ws a (p_name p, n)) as [[p' w']|] eqn:El; [|discriminate].
         rewrite (lookup_ws_compiled _ _ _ El). auto.
     + destruct (w_abstract w) eqn:Eab; [reflexivity|].
-      change (p_name p, desc_name w) with (item_key (desc_item (p_name p) w)).
+      change (p_name p, desc_name w) with (item_key (desc_item m (p_name p) w)).
       unfold d. rewrite (find_item_in _ _ (d_nodup a m Hwf) (in_compiled_desc a m p w Hpw Eab)).
       cbn. apply qname_eqb_refl.
   - reflexivity.
@@ -580,8 +581,8 @@ Lemma all_tables_match p w : In (p, w) (all_ws a) -> negb (w_abstract w) || loca
   flt_has_match d (p_name p, w_name w) acl_cls (FWT (p_name p, w_name w) FkRecords) = true.
 Proof.
   intros Hpw H. cbn. apply existsb_exists. apply orb_true_iff in H as [H | H].
-  - apply negb_true_iff in H. exists (desc_item (p_name p) w).
-    assert (Hit : In (desc_item (p_name p) w) d) by (apply in_compiled_desc; auto).
+  - apply negb_true_iff in H. exists (desc_item m (p_name p) w).
+    assert (Hit : In (desc_item m (p_name p) w) d) by (apply in_compiled_desc; auto).
     split; auto. cbn [item_ws desc_item]. rewrite qname_eqb_refl.
     rewrite (local_visible p w _ Hpw Hit eq_refl). reflexivity.
   - unfold local_nonempty in H. destruct (s_tables w) as [|n r] eqn:Es; [discriminate|].
@@ -926,8 +927,16 @@ Proof.
   unfold bv_refs. apply forall_compiled.
   - reflexivity.
   - intros p w Hpw Hab. unfold desc_item, bv_refs_item. rewrite andb_true_r, refs_ok_app, sys_fields_refs. cbn [andb].
-    unfold refs_ok. rewrite forallb_map. apply forallb_forall. intros f _. unfold fd_of_field.
-    destruct (f_type f); cbn [fd_refs]; auto. cbn. unfold d. rewrite cls_of_sys; reflexivity.
+    unfold refs_ok. rewrite forallb_map. apply forallb_forall. intros x Hx. destruct x as [f | n refs nn]; cbn [fd_of_ditem].
+    + unfold fd_of_field. destruct (f_type f); cbn [fd_refs]; auto. cbn. unfold d. rewrite cls_of_sys; reflexivity.
+    + (* a reference field of the descriptor: targets are concrete tables in scope (ws_ok) *)
+      cbn [fd_ref fd_refs]. destruct (m_desc_refs m); [|reflexivity]. rewrite forallb_map. apply forallb_forall. intros r Hr.
+      pose proof (wf_ws_ok a Hwf p w (proj1 (in_all_ws a p w) Hpw)) as Hok. unfold ws_ok in Hok. rewrite !andb_true_iff in Hok.
+      destruct Hok as [[[_ Hdesc] _] _]. destruct (w_desc w) as [fs|]; [|destruct Hx].
+      apply andb_true_iff in Hdesc as [Hdesc _]. rewrite forallb_forall in Hdesc. specialize (Hdesc _ Hx). cbn [ditem_ok] in Hdesc.
+      rewrite forallb_forall in Hdesc. specialize (Hdesc _ Hr). cbv zeta in Hdesc. apply andb_true_iff in Hdesc as [Hs _].
+      destruct (scoped_table_visible p w s_concrete_tables _ Hpw concrete_sub Hs) as (k & _ & Hne & Hc). rewrite Hc.
+      destruct k; auto; congruence.
   - intros p w i it Hpw Hi Hin. destruct (stmt_cases _ _ _ _ Hin); try reflexivity.
     + apply struct_refs_ok. eapply lists_declared_root; eauto.
     + apply struct_refs_ok. eapply lists_declared_nested; eauto.
@@ -1179,6 +1188,9 @@ Qed.
 Lemma fd_of_field_name f : fd_name (fd_of_field f) = f_name f.
 Proof. unfold fd_of_field. destruct (f_type f); reflexivity. Qed.
 
+Lemma fd_of_ditem_name keep pn x : fd_name (fd_of_ditem keep pn x) = d_name x.
+Proof. destruct x; cbn [fd_of_ditem d_name]; [apply fd_of_field_name | reflexivity]. Qed.
+
 Lemma chain_lists_nodup pn ls : chain_lists_ok pn ls = true -> NoDup (flat_map (fun l : ilist => titem_names (snd l)) ls).
 Proof. unfold chain_lists_ok. intros H. apply andb_true_iff in H as [H _]. apply nodup_s_NoDup; auto. Qed.
 
@@ -1237,8 +1249,8 @@ Proof.
     pose proof (wf_ws_ok a Hwf p w (proj1 (in_all_ws a p w) Hpw)) as Hok. unfold ws_ok in Hok. rewrite !andb_true_iff in Hok.
     destruct Hok as [[[_ Hdesc] _] _]. destruct (ws_lex_in p w Hpw) as [Hwl _]. unfold ws_lex in Hwl. apply andb_true_iff in Hwl as [_ Hdl].
     apply NoDup_nodup_s. rewrite map_app, map_map.
-    replace (map (fun x => fd_name (fd_of_field x)) (match w_desc w with Some l => l | None => [] end))
-      with (map f_name (match w_desc w with Some l => l | None => [] end)) by (apply map_ext; intros; symmetry; apply fd_of_field_name).
+    replace (map (fun x => fd_name (fd_of_ditem (m_desc_refs m) (p_name p) x)) (match w_desc w with Some l => l | None => [] end))
+      with (map d_name (match w_desc w with Some l => l | None => [] end)) by (apply map_ext; intros; symmetry; apply fd_of_ditem_name).
     apply NoDup_app_intro; [apply sys_names_nodup | |].
     + destruct (w_desc w); [|constructor]. apply andb_true_iff in Hdesc as [_ Hd]. apply nodup_s_NoDup; auto.
     + intros x H1 H2. apply sys_name_not_lex in H1. destruct (w_desc w) as [fs|]; [|destruct H2].
@@ -1390,7 +1402,7 @@ Proof.
     + unfold valid_qname. cbn [fst snd]. rewrite (lex_valid _ Hp). cbn [andb]. unfold desc_name in *. apply valid_app; auto.
     + rewrite forallb_app. apply andb_true_iff. split; apply forallb_forall; intros f Hf.
       * rewrite (sys_fields_sys _ f Hf). auto.
-      * apply in_map_iff in Hf as (fl & <- & Hfl). apply orb_true_iff. right. rewrite fd_of_field_name. apply lex_valid.
+      * apply in_map_iff in Hf as (fl & <- & Hfl). apply orb_true_iff. right. rewrite fd_of_ditem_name. apply lex_valid.
         destruct (w_desc w) as [fs|]; [|destruct Hfl]. rewrite forallb_forall in Hd. apply (Hd _ Hfl).
   - intros p w i it Hpw Hi Hin. destruct (ws_lex_in p w Hpw) as [_ Hp]. pose proof (wsitem_lex_in p w _ Hpw Hi) as Hl.
     pose proof Hin as Hin0. destruct (stmt_cases _ _ _ _ Hin).
